@@ -111,6 +111,10 @@ pub fn aggregate_all<C: Suite>(
         ("custom:Disabled", frost::aggregate_custom(pkg, shares, pk, CheaterDetection::Disabled)),
         ("custom:FirstCheater", frost::aggregate_custom(pkg, shares, pk, CheaterDetection::FirstCheater)),
         ("custom:AllCheaters", frost::aggregate_custom(pkg, shares, pk, CheaterDetection::AllCheaters)),
+        // and through the ciphersuite crate's own entry points
+        ("suite crate aggregate", C::w_aggregate(pkg, shares, pk)),
+        ("suite crate custom:Disabled", C::w_aggregate_custom(pkg, shares, pk, CheaterDetection::Disabled)),
+        ("suite crate custom:AllCheaters", C::w_aggregate_custom(pkg, shares, pk, CheaterDetection::AllCheaters)),
     ]
 }
 
